@@ -146,10 +146,13 @@ pub struct Oracles {
     pub both_headers: bool,
     /// the write transaction itself is dumped (cursor scans of every bucket) right before commit / drop
     pub dump_in_tx: bool,
+    /// every put into a non-empty bucket is made while an already positioned cursor of that bucket is
+    /// kept; the cursor must afterwards still reach every untouched entry that follows its position
+    pub kept_cursor: bool,
 }
 
 impl Oracles {
-    pub const NONE: Oracles = Oracles { rets: false, dump_after: false, reopen_copy: false, probe_each_op: None, probe_after_commit: None, fileck: false, dbcheck: false, no_trace: false, readers_frozen: false, strict_layout: false, both_headers: false, dump_in_tx: false };
+    pub const NONE: Oracles = Oracles { rets: false, dump_after: false, reopen_copy: false, probe_each_op: None, probe_after_commit: None, fileck: false, dbcheck: false, no_trace: false, readers_frozen: false, strict_layout: false, both_headers: false, dump_in_tx: false, kept_cursor: false };
 }
 
 #[derive(Clone, Debug)]
@@ -507,8 +510,33 @@ impl Runner {
                 let mut aborted = false;
                 for (i, op) in ops_ref.iter().enumerate() {
                     self.stats.ops += 1;
+                    let before_keys: Option<Vec<Vec<u8>>> = if or.kept_cursor && matches!(op, Op::Put { .. }) {
+                        let mut cur = Some(&model);
+                        for name in op.path() {
+                            cur = match cur.and_then(|m| m.items.get(name)) {
+                                Some(crate::refmodel::Item::Bucket(b)) => Some(b),
+                                _ => None,
+                            };
+                        }
+                        if op.path().is_empty() {
+                            None
+                        } else {
+                            cur.map(|m| m.items.keys().cloned().collect())
+                        }
+                    } else {
+                        None
+                    };
                     let want = model.apply(op);
-                    let got = real::exec_op(&tx, op, owned);
+                    let kept = before_keys.and_then(|bk| real::put_with_kept_cursor(&tx, op, &bk, i + self.stats.commits as usize));
+                    let got = match kept {
+                        Some((ret, note)) => {
+                            if let Some(n) = note {
+                                out.push(Violation::new("read:kept_cursor_loses_entries", format!("op {} `{}`: {}", i, ops[i].to_json(), n)));
+                            }
+                            ret
+                        }
+                        None => real::exec_op(&tx, op, owned),
+                    };
                     if let Ret::Panic(p) = &got {
                         out.push(Violation::new(panic_class("op_panic", p), format!("op {} `{}` panicked: {}", i, ops[i].to_json(), p)));
                         aborted = true;
